@@ -1,13 +1,13 @@
 SPECIFICATION Spec
 CONSTANTS
   Traces = {"a", "b"}
-  KeepTraces = {"a"}
+  KeepTraces = {}
   DropTraces = {"a", "b"}
   Rates = {1}
   Reasons = {"ra"}
   Coupled = TRUE
   KeptSizes = {1}
-  ResizeKept = {1}
+  ResizeKept = {}
   DropSizes = {3}
   MaxQueue = 1
   MaxCount = 1
